@@ -113,6 +113,9 @@ fn run_case(out: &mut Out, case: &Case) {
             out.count(&format!("gen-rejected:{}", case.kind));
             let key: String = e.chars().take(60).collect();
             out.count(&format!("gen-rejected-why:{}", key.replace(['\t', '\n'], " ")));
+            if std::env::var("C08_SHOW_INVALID").is_ok() {
+                eprintln!("REJECTED {e}\n{}", case.src);
+            }
             return;
         }
         Err(_) => {
@@ -123,8 +126,13 @@ fn run_case(out: &mut Out, case: &Case) {
     // only valid components are in scope
     let (w, wcounts) = match walk_component(&bytes) {
         Ok(x) => x,
-        Err(_) => {
+        Err(e) => {
             out.count(&format!("gen-invalid:{}", case.kind));
+            let key: String = e.chars().take(60).collect();
+            out.count(&format!("gen-invalid-why:{}", key.replace(['\t', '\n'], " ")));
+            if std::env::var("C08_SHOW_INVALID").is_ok() {
+                eprintln!("INVALID {e}\n{}", case.src);
+            }
             return;
         }
     };
